@@ -66,6 +66,10 @@ VARIANTS = {
     # memory-error / UB oracle
     "san": ["-O1", "-g", "-fno-omit-frame-pointer", "-fsanitize=address,undefined",
             "-fno-sanitize-recover=undefined"],
+    # C19 oracle: memory errors and undefined behaviour that can fault; arithmetic overflow on
+    # garbage clocks is not a crash, a hang or an out-of-bounds access (outside the property)
+    "sanx": ["-O1", "-g", "-fno-omit-frame-pointer", "-fsanitize=address,undefined",
+             "-fno-sanitize=signed-integer-overflow", "-fno-sanitize-recover=undefined"],
     "tsan": ["-O1", "-g", "-fno-omit-frame-pointer", "-fsanitize=thread"],
 }
 TOOLS = ["ovniemu", "ovnidump", "ovnisort", "ovnitop", "ovnievents"]
@@ -174,6 +178,23 @@ class Build:
         src = os.path.join(REPO, "src/emu", name + ".c")
         tmp = exe + ".%d.tmp" % os.getpid()
         r = run(["gcc"] + self.cflags(variant) + [src, a, "-lm", "-o", tmp])
+        if r.returncode != 0:
+            raise InfraError("link failed for %s:\n%s" % (name, r.stderr.decode()[-2000:]))
+        os.replace(tmp, exe)
+        return exe
+
+    def tool_heapbuf(self, variant, name):
+        """Tool linked against an archive whose stream.c loads the stream into an exact-size heap
+        buffer (wrapper -Dmmap=verif_mmap; no source change)."""
+        exe = os.path.join(self.dir, variant, name + "-heapbuf")
+        h = hashlib.sha1(open(os.path.join(VERIF, "harness", "mmap_heap.c"), "rb").read()).hexdigest()[:8]
+        exe += "-" + h
+        if os.path.exists(exe):
+            return exe
+        a = self.lib(variant, {"src/emu/stream.c": ["-Dmmap=verif_mmap"]}, tag="-heapbuf")
+        src = os.path.join(REPO, "src/emu", name + ".c")
+        tmp = exe + ".%d.tmp" % os.getpid()
+        r = run(["gcc"] + self.cflags(variant) + [src, os.path.join(VERIF, "harness", "mmap_heap.c"), a, "-lm", "-o", tmp])
         if r.returncode != 0:
             raise InfraError("link failed for %s:\n%s" % (name, r.stderr.decode()[-2000:]))
         os.replace(tmp, exe)
